@@ -61,6 +61,8 @@ pub struct Socket {
     pub tx_count: usize,
     pub send_fail: bool,
     pub read_timeout_ns: Cell<Option<u64>>,
+    /// the Duration exactly as handed to set_read_timeout (comparing Durations avoids a symbolic 64-bit division)
+    pub read_timeout: Cell<Option<Duration>>,
     pub nonblocking: Cell<bool>,
     pub tos: Cell<Option<u32>>,
     pub connected: Cell<bool>,
@@ -84,6 +86,7 @@ impl Socket {
             tx_count: 0,
             send_fail: false,
             read_timeout_ns: Cell::new(None),
+            read_timeout: Cell::new(None),
             nonblocking: Cell::new(false),
             tos: Cell::new(None),
             connected: Cell::new(false),
@@ -91,7 +94,9 @@ impl Socket {
         })
     }
     pub fn set_read_timeout(&self, _d: Option<Duration>) -> io::Result<()> {
-        self.read_timeout_ns.set(_d.map(|d| d.as_nanos() as u64));
+        self.read_timeout.set(_d);
+        // nanoseconds for the virtual clock: seconds * 10^9 + subsec (no u128 arithmetic)
+        self.read_timeout_ns.set(_d.map(|d| d.as_secs().wrapping_mul(1_000_000_000).wrapping_add(d.subsec_nanos() as u64)));
         Ok(())
     }
     pub fn read_timeout(&self) -> io::Result<Option<Duration>> {
